@@ -252,6 +252,11 @@ def r3_every_evaluate_is_counted(ctx):
             # (for stacks, sizes, present / absent evaluator) by C06.R1 on the component as a whole, helpers included
             ctx.ok("C06.R3", root.key, "evaluation-counted", "evaluation step: decided by C06.R1 on PopulationEvaluator::execute")
             continue
+        if owner_of(root).key == "<mahf::components::swarm::fa::FireflyPositionsUpdate as mahf::components::Component>::execute":
+            # the firefly update: every move evaluated once by the held evaluator and counted - decided by C06.R7 (helpers included)
+            ctx.ok("C06.R3", root.key, "evaluation-counted", "firefly update: decided by C06.R7")
+            continue
+        # any OTHER place that invokes an evaluator: the CFG pairing below (evaluation followed by an equal advance of the counter)
         body = root.body
         # the statement in root after which counting must happen: the holding(..)? call (or the call itself)
         anchor_bb = bb
@@ -410,3 +415,126 @@ def run(ctx):
     ctx.guard("C06.R2", "evaluators", lambda: r2_evaluators(ctx))
     ctx.guard("C06.R3", "every evaluate is counted", lambda: r3_every_evaluate_is_counted(ctx))
     ctx.guard("C06.R4", "identifiers", lambda: r4_identifiers(ctx))
+    ctx.guard("C06.R7", "firefly update", lambda: r7_firefly(ctx))
+
+
+def r7_firefly(ctx):
+    """K6 on FireflyPositionsUpdate::execute (the second place where the objective function is invoked): real population stack
+    (another population underneath), Evaluations / RandomizationParameter cells of the typed store, one-dimensional float
+    solutions, objective values ordered by a scenario ranking in which a moved firefly becomes the best of all (so the control
+    flow is decided).  Every move is followed by exactly one evaluation of exactly the moved firefly by the HELD evaluator of
+    the component's own identifier, the counter advances by exactly the number of evaluations made, and afterwards the
+    population (same size) is back on top of an untouched stack."""
+    import itertools
+    import statemodel
+    from absint import Interp, Sym, Agg, Ref, TOP, ok, err, some, NONE, std_oracle, chain
+    from collmodel import coll_oracle, Vec, install as _inst, load as _load, heap_get, view_get
+    from c04 import StackModel
+    from c10 import mk_oracle
+    import c07
+    F = ctx.facts
+    FA = "mahf::components::swarm::fa::"
+    adt = FA + "FireflyPositionsUpdate"
+    fn = F.method(adt, "execute", COMPONENT)
+    a_ = F.adt(adt)
+    flds = {x["name"]: x["i"] for x in a_["variants"][0]["fields"]}
+    POP = statemodel.POPULATIONS
+    SO = "mahf::problems::objective::single::SingleObjective"
+    ev_home = 10000
+    bad = []
+    n = 0
+    for size in range(0, 4):
+        for order in (itertools.permutations(range(size)) if size else [()]):
+            me = Sym("self", {flds[k_]: v_ for k_, v_ in (("alpha", 0.5), ("beta", 1.0), ("gamma", 0.01)) if k_ in flds})
+            cells, popsym, sf = statemodel.stack_and_rng(F, 0)
+            cells = dict(cells)
+            cells[EVALS] = Agg("adt", EVALS, "Evaluations", [7])
+            cells[FA + "RandomizationParameter"] = 0.25
+            store = statemodel.Store(F, levels=1, auto=statemodel.by_prefix(F, cells))
+
+            def holding(interp, env, f, args):
+                ga = [g for g in (f.get("cgargs") or f.get("gargs") or []) if not g.startswith("closure{") and g != "P"]
+                interp.mstate["held"] = interp.mstate.get("held", ()) + (ga[0] if len(ga) == 1 else tuple(ga),)
+                outs_ = interp.call_value(args[1], [Ref(ev_home, [], frame="root"), args[0]])
+                if outs_ and len(outs_) == 1 and outs_[0][2] == "return":
+                    interp.mstate.clear()
+                    interp.mstate.update(outs_[0][3])
+                    return outs_[0][0]
+                return TOP
+
+            def evaluate(interp, env, f, args):
+                who = _load(interp, env, args[0])
+                sl = _load(interp, env, args[3]) if len(args) > 3 else TOP
+                k = interp.mstate.get("nevals", 0)
+                interp.mstate["nevals"] = k + 1
+                items = None
+                if isinstance(sl, Vec):
+                    items = list(view_get(interp, sl))
+                elif isinstance(sl, Agg) and sl.kind in ("slice", "array"):
+                    items = list(sl.fields)
+                if items is None or len(items) != 1:
+                    interp.mstate["bad_slice"] = repr(sl)
+                    return Agg("tuple", None, None, [])
+                tgt = items[0]
+                from absint import HRef, href_get, href_set
+                ind_ = href_get(interp, env, tgt) if isinstance(tgt, HRef) else (interp.read_ref(env, tgt) if isinstance(tgt, Ref) else tgt)
+                tag = "o:new%d" % k
+                rk = dict(interp.mstate.get("rank", {}))
+                rk[tag] = -1 - k                      # a moved firefly is the best of all from now on
+                interp.mstate["rank"] = rk
+                newi = Agg("adt", c07.IND, "Individual", [ind_.fields[0], some(Sym(tag))]) if isinstance(ind_, Agg) else TOP
+                if isinstance(tgt, HRef):
+                    href_set(interp, env, tgt, newi)
+                elif isinstance(tgt, Ref):
+                    interp.write_ref(env, tgt, newi)
+                interp.mstate["evaluated"] = interp.mstate.get("evaluated", ()) + ((getattr(who, "tag", repr(who)), c07.otag(ind_) if isinstance(ind_, Agg) else None,
+                                                                                  isinstance(ind_, Agg) and isinstance(ind_.fields[1], Agg) and ind_.fields[1].variant == "Some"),)
+                return Agg("tuple", None, None, [])
+            table = {"mahf::state::State::holding": holding, EVAL: evaluate, "mahf::state::common::Evaluator::as_inner_mut": Sym("held-evaluator:inner"),
+                     "mahf::state::common::Evaluator::as_inner": Sym("held-evaluator:inner"), "rand::rng::Rng::gen_range": 0.75, "rand::rng::Rng::gen": 0.75,
+                     "mahf::problems::VectorProblem::dimension": 1, "mahf::problems::LimitedVectorProblem::domain": Vec("dom")}
+            it = _inst(Interp(fn.body, chain(mk_oracle(table), store, StackModel(sf), coll_oracle, std_oracle), [me, Sym("problem"), Sym("state")], facts=F,
+                              inline=lambda k_: k_.startswith(POP + "::") or statemodel.inline(k_) or c07.INLINE(k_), max_visits=40, max_paths=50))
+            heap = {"bottom": (c07.ind("b"),), "dom": (Agg("adt", "core::ops::range::Range", "Range", [-5.0, 5.0]),),
+                    "top": tuple(Agg("adt", c07.IND, "Individual", [Vec("x%d" % i), some(Sym("o:%d" % i))]) for i in range(size))}
+            for i in range(size):
+                heap["x%d" % i] = (float(i),)
+            it.extra_env = {ev_home: Sym("held-evaluator")}
+            it.init_state = {"stack": (Vec("bottom"), Vec("top")), "next_vec": 0, "heap": heap, "rank": {"o:%d" % i: order[i] for i in range(size)}}
+            store.install(it)
+            n += 1
+            # the structured loop: i moves towards every j that is better at that moment
+            rk = list(order)
+            moves = 0
+            for i in range(size):
+                for j in range(size):
+                    if rk[i] > rk[j]:
+                        moves += 1
+                        rk[i] = -moves
+            label = "fireflies with objective ranks %s" % (list(order),)
+            paths = it.run()
+            if len(paths) != 1:
+                bad.append((label, "is not decided (%d paths: %s)" % (len(paths), sorted({p.end for p in paths}))))
+                continue
+            p = paths[0]
+            if p.end != "return" or not (isinstance(p.ret, Agg) and p.ret.variant == "Ok"):
+                bad.append((label, "does not complete (%s %s)" % (p.end, p.ret)))
+                continue
+            evd = p.mstate.get("evaluated", ())
+            cv = statemodel.payload_of(store, p, EVALS, 7)
+            st = [getattr(x, "vid", repr(x)) for x in p.mstate.get("stack", ())]
+            top_now = p.mstate["heap"].get(st[-1], ()) if st else ()
+            if p.mstate.get("bad_slice"):
+                bad.append((label, "hands %s to the evaluator; exactly the moved firefly (a one-element slice) is expected" % p.mstate["bad_slice"]))
+            elif len(evd) != moves:
+                bad.append((label, "makes %d evaluations for %d moves (every move is evaluated exactly once)" % (len(evd), moves)))
+            elif any(e[0] != "held-evaluator:inner" for e in evd) or set(p.mstate.get("held", ())) - {"mahf::state::common::Evaluator<P, I>"}:
+                bad.append((label, "evaluates with %s held as %s; expected the held evaluator of its own identifier" % (sorted({e[0] for e in evd}), sorted(set(map(str, p.mstate.get("held", ())))))))
+            elif any(e[2] for e in evd):
+                bad.append((label, "hands the evaluator a firefly that still carries its old objective value after moving"))
+            elif cv != 7 + moves:
+                bad.append((label, "advances the evaluation counter from 7 to %s after %d evaluations" % (cv, moves)))
+            elif len(st) != 2 or st[0] != "bottom" or len(top_now) != size or [c07.otag(x) for x in p.mstate["heap"].get("bottom", ())] != ["o:b"]:
+                bad.append((label, "leaves the stack %s with a top population of %d (expected the %d fireflies back on top of the untouched population underneath)" % (st, len(top_now), size)))
+    ctx.count("firefly_scenarios", n)
+    ctx.check(not bad, "C06.R7", fn.key, "every-move-evaluated-and-counted", "%s: the update %s" % (bad[0] if bad else ("", "")), detail="%d scenarios" % n, loc=fn.loc())
